@@ -11,7 +11,7 @@ From Verif.Gen Require Import Consts.
 From Verif.Model Require Import IE Codec Record SetB Msg Decode E2E.
 From Verif.Model Require Exporter.
 From Verif.Proofs Require Import Bytes_lemmas Codec_lemmas SetB_lemmas Exporter_lemmas Decode_lemmas Decode_roundtrip E2E_lemmas.
-From Verif.Driver Require Import Show C15drv C01drv.
+From Verif.Driver Require Import Show C15drv C01single.
 Import ListNotations.
 Local Open Scope N_scope.
 Local Notation length := List.length.
